@@ -673,6 +673,202 @@ fn app_case(case_no: usize, rng: &mut Rng, rep: &mut Report) {
     }
 }
 
+
+/// a configured limit, as the generator knows it (seconds for runtime budgets)
+#[derive(Clone, Debug)]
+enum Lim {
+    Runtime { secs: u64, text: String, freq: u64 },
+    Iter(u64),
+    Size(u64),
+    Comb(Vec<Lim>),
+}
+
+impl Lim {
+    fn gen(rng: &mut Rng, depth: usize) -> Lim {
+        match rng.below(if depth >= 2 { 3 } else { 4 }) {
+            0 => {
+                // H:MM:SS with any hour count (the builder's text form), budgets from zero to several days
+                let h = match rng.below(4) {
+                    0 => 0,
+                    1 => rng.urange(1, 3) as u64,
+                    2 => rng.urange(1, 23) as u64,
+                    _ => rng.urange(24, 120) as u64,
+                };
+                let m = if rng.chance(0.3) { 0 } else { rng.below(60) as u64 };
+                let sc = if rng.chance(0.3) { 0 } else { rng.below(60) as u64 };
+                let text = if rng.chance(0.5) { format!("{h}:{m:02}:{sc:02}") } else { format!("{h:02}:{m:02}:{sc:02}") };
+                Lim::Runtime { secs: h * 3600 + m * 60 + sc, text, freq: *rng.pick(&[1u64, 1, 2, 3, 7, 10, 100]) }
+            }
+            1 => Lim::Iter(if rng.chance(0.1) { 0 } else { rng.urange(1, 100_000) as u64 }),
+            2 => Lim::Size(if rng.chance(0.1) { 0 } else { rng.urange(1, 100_000) as u64 }),
+            _ => Lim::Comb((0..rng.urange(1, 4)).map(|_| Lim::gen(rng, depth + 1)).collect()),
+        }
+    }
+    fn json(&self) -> Value {
+        match self {
+            Lim::Runtime { text, freq, .. } => json!({"type": "query_runtime", "limit": text, "frequency": freq}),
+            Lim::Iter(n) => json!({"type": "iterations", "limit": n}),
+            Lim::Size(n) => json!({"type": "solution_size", "limit": n}),
+            Lim::Comb(v) => json!({"type": "combined", "models": v.iter().map(|l| l.json()).collect::<Vec<_>>()}),
+        }
+    }
+    fn leaves<'a>(&'a self, out: &mut Vec<&'a Lim>) {
+        match self {
+            Lim::Comb(v) => v.iter().for_each(|l| l.leaves(out)),
+            other => out.push(other),
+        }
+    }
+    /// the leaves that stop a search `elapsed_ms` old with `size` tree entries at loop top `iter`
+    fn exceeded<'a>(&'a self, elapsed_ms: u64, size: u64, iter: u64, out: &mut Vec<&'a Lim>) {
+        match self {
+            Lim::Runtime { secs, freq, .. } => {
+                if iter % freq == 0 && elapsed_ms > secs * 1000 {
+                    out.push(self)
+                }
+            }
+            Lim::Iter(n) => {
+                if iter + 1 > *n {
+                    out.push(self)
+                }
+            }
+            Lim::Size(n) => {
+                if size > *n {
+                    out.push(self)
+                }
+            }
+            Lim::Comb(v) => v.iter().for_each(|l| l.exceeded(elapsed_ms, size, iter, out)),
+        }
+    }
+}
+
+/// "[+D.]H:MM:SS.mmm" as the explanation prints a budget -> milliseconds
+fn parse_hhmmss_ms(t: &str) -> Option<u64> {
+    let (days, rest) = match t.strip_prefix('+') {
+        Some(r) => {
+            let (d, rest) = r.split_once('.')?;
+            (d.parse::<u64>().ok()?, rest)
+        }
+        None => (0, t),
+    };
+    let (hms, ms) = rest.split_once('.')?;
+    let parts: Vec<&str> = hms.split(':').collect();
+    if parts.len() != 3 {
+        return None;
+    }
+    let (h, m, sc) = (parts[0].parse::<u64>().ok()?, parts[1].parse::<u64>().ok()?, parts[2].parse::<u64>().ok()?);
+    Some((((days * 24 + h) * 60 + m) * 60 + sc) * 1000 + ms.parse::<u64>().ok()?)
+}
+
+/// limits as configured: random [termination] sections go through the real TerminationModelBuilder and the built
+/// model is probed with back-dated start instants (a budget of minutes or hours cannot be waited for). the budget
+/// the model enforces - and names when it stops a search - must be the one written in the configuration.
+fn config_case(rng: &mut Rng, rep: &mut Report) {
+    use crate::hooks::{catch, panic_sig};
+    use routee_compass::app::compass::config::termination_model_builder::TerminationModelBuilder;
+    use std::time::Instant;
+    rep.eval();
+    let lim = Lim::gen(rng, 0);
+    let cfg = lim.json();
+    let model = match catch(|| TerminationModelBuilder::build(&cfg, None)) {
+        Ok(Ok(m)) => m,
+        Ok(Err(e)) => {
+            rep.violate("C10|TerminationModelBuilder|well-formed-section-refused", format!("{e}"), || json!({"termination": cfg}));
+            return;
+        }
+        Err(pm) => {
+            rep.violate(&format!("C10|TerminationModelBuilder|{}", panic_sig(&pm)), pm, || json!({"termination": cfg}));
+            return;
+        }
+    };
+    let mut leaves = vec![];
+    lim.leaves(&mut leaves);
+    // probe points: ages around every configured budget (half a second off any whole second, so that the microseconds
+    // between back-dating and the model's own clock reading cannot flip a verdict), including the ages at which a
+    // mis-weighted hour or minute field would fire; sizes and iteration numbers around the configured counts
+    let mut ages: Vec<u64> = vec![500];
+    let mut sizes: Vec<u64> = vec![0, rng.urange(0, 200_000) as u64];
+    let mut iters: Vec<u64> = vec![0, rng.urange(0, 200_000) as u64];
+    for l in &leaves {
+        match l {
+            Lim::Runtime { secs, freq, .. } => {
+                for a in [secs / 3600, secs / 60, secs / 2, secs.saturating_sub(1), *secs, secs + 1, secs * 2 + 5] {
+                    ages.push(a * 1000 + 500);
+                }
+                iters.extend([*freq, freq * 3, freq * 3 + 1, freq.saturating_sub(1)]);
+            }
+            Lim::Iter(n) => iters.extend([n.saturating_sub(2), n.saturating_sub(1), *n, n + 1]),
+            Lim::Size(n) => sizes.extend([n.saturating_sub(1), *n, n + 1, n + 50]),
+            Lim::Comb(_) => {}
+        }
+    }
+    let has_runtime = leaves.iter().any(|l| matches!(l, Lim::Runtime { .. }));
+    let mut probes = 0u64;
+    for _ in 0..24 {
+        let age = *rng.pick(&ages);
+        let size = *rng.pick(&sizes);
+        let iter = *rng.pick(&iters);
+        // an instant older than the machine's uptime cannot be formed: such a probe is skipped, not judged
+        let Some(start) = Instant::now().checked_sub(Duration::from_millis(age)) else {
+            rep.count("configured_limit_probes_skipped_(older_than_uptime)", 1);
+            continue;
+        };
+        probes += 1;
+        let mut want = vec![];
+        lim.exceeded(age, size, iter, &mut want);
+        let replay = || json!({"termination": cfg, "search_age_ms": age, "tree_size": size, "loop_top": iter});
+        let got = match catch(|| model.terminate_search(&start, size as usize, iter)) {
+            Ok(Ok(b)) => b,
+            Ok(Err(e)) => {
+                rep.violate("C10|configured-limit|terminate_search-error", format!("{e}"), replay);
+                return;
+            }
+            Err(pm) => {
+                rep.violate(&format!("C10|configured-limit|{}", panic_sig(&pm)), pm, replay);
+                return;
+            }
+        };
+        if got != !want.is_empty() {
+            let kind = if got { "stops-inside-every-configured-limit" } else { "passes-an-exceeded-limit" };
+            let which = if want.is_empty() { leaves.iter().map(|l| format!("{l:?}")).collect::<Vec<_>>().join(", ") } else { want.iter().map(|l| format!("{l:?}")).collect::<Vec<_>>().join(", ") };
+            rep.violate(&format!("C10|configured-limit|{kind}"), format!("a search {age} ms old with {size} tree entries at loop top {iter}: terminate_search = {got}; configured {which}"), replay);
+            return;
+        }
+        // the explicit error names the limits that were hit, with the configured values
+        match model.test(&start, size as usize, iter) {
+            Ok(()) if want.is_empty() => {}
+            Err(TerminationModelError::QueryTerminated(msg)) if !want.is_empty() => {
+                for l in &want {
+                    let named = match l {
+                        Lim::Runtime { secs, .. } => msg.split("exceeded runtime limit of ").skip(1).any(|t| parse_hhmmss_ms(t.split(',').next().unwrap_or("").trim()) == Some(secs * 1000)),
+                        Lim::Iter(n) => msg.split(", ").any(|t| t.trim() == format!("exceeded iteration limit of {n}")),
+                        Lim::Size(n) => msg.split(", ").any(|t| t.trim() == format!("exceeded solution size limit of {n}")),
+                        Lim::Comb(_) => true,
+                    };
+                    if !named {
+                        rep.violate("C10|configured-limit|explanation-does-not-name-the-limit", format!("stopped by {l:?} but the error reads '{msg}'"), replay);
+                        return;
+                    }
+                }
+                rep.count("configured_limit_explanations_confirmed", 1);
+            }
+            other => {
+                rep.violate("C10|configured-limit|test-disagrees-with-terminate_search", format!("terminate_search = {got}, test() = {:?}", other.map_err(|e| e.to_string())), replay);
+                return;
+            }
+        }
+    }
+    rep.count("configured_limit_probes", probes);
+    rep.seen("configured_limit_kinds", match &lim {
+        Lim::Runtime { secs, .. } => format!("query_runtime {}", if *secs == 0 { "0" } else if *secs < 3600 { "<1h" } else if *secs < 86400 { "hours" } else { "days" }),
+        Lim::Iter(_) => "iterations".into(),
+        Lim::Size(_) => "solution_size".into(),
+        Lim::Comb(v) => format!("combined of {}", v.len()),
+    });
+    if has_runtime && probes > 0 {
+        rep.nontrivial(hash_str(&cfg.to_string()));
+    }
+}
+
 pub fn run(tier: Tier, seed: u64) -> MonOut {
     let n = tier.n(8_000, 300_000);
     let n_timed = tier.n(640, 12_000);
@@ -682,9 +878,12 @@ pub fn run(tier: Tier, seed: u64) -> MonOut {
     // application-level slice: limits from the TOML, verdicts from the responses
     let r3 = par_cases(seed ^ 0x20, tier.n(160, 4_000), |i, rng, rep| app_case(i, rng, rep));
     rep.merge(r3);
+    // limits as configured: the builder's text forms against back-dated clocks
+    let r4 = par_cases(seed ^ 0x30, tier.n(20_000, 600_000), |_i, rng, rep| config_case(rng, rep));
+    rep.merge(r4);
     MonOut {
         report: rep,
-        rule: "generated networks x plain searches (Dijkstra / A* any weight factor, forward/reverse, with/without destination) and k-shortest-path searches (each sub-search observed separately); per query an unlimited reference run, then sweeps of the iteration limit 0..need+3 and of the solution-size limit 0..tree+3 (all values when small, else ends + random interior), random combined limits, a zero runtime budget at check frequencies 1,2,3,7 and a 10..30 ms budget expiring mid-search (traversal model sleeping 1..2 ms per edge, frequency 1..7). observed through LoopTop/Pop/SearchEnd hook events (the error path exposes no counters). application-level slice: per generated world one unlimited application and seven limited ones ([termination] iterations x4 around the need, solution_size, combined, query_runtime 0 with frequency 1..3), the same six queries through each; a limited response is either the unlimited route or a 'terminated' error naming the configured limit, never another error, and success is monotone in the iteration limit. non-trivial = the unlimited search needs >= 3 expansions; distinct by (network, algorithm, od, direction) resp. (runtime setting, terminating iteration)".into(),
+        rule: "generated networks x plain searches (Dijkstra / A* any weight factor, forward/reverse, with/without destination) and k-shortest-path searches (each sub-search observed separately); per query an unlimited reference run, then sweeps of the iteration limit 0..need+3 and of the solution-size limit 0..tree+3 (all values when small, else ends + random interior), random combined limits, a zero runtime budget at check frequencies 1,2,3,7 and a 10..30 ms budget expiring mid-search (traversal model sleeping 1..2 ms per edge, frequency 1..7). observed through LoopTop/Pop/SearchEnd hook events (the error path exposes no counters). application-level slice: per generated world one unlimited application and seven limited ones ([termination] iterations x4 around the need, solution_size, combined, query_runtime 0 with frequency 1..3), the same six queries through each; a limited response is either the unlimited route or a 'terminated' error naming the configured limit, never another error, and success is monotone in the iteration limit. configured-limit slice: random [termination] sections (query_runtime H:MM:SS from 0 to 120 hours with frequency 1..100, iterations, solution_size, nested combined) through TerminationModelBuilder; the built model is probed (terminate_search, test) with start instants back-dated to ages around every configured budget (including budget/60 and budget/3600) and sizes / loop tops around the configured counts, against the generator's own reading of the section; the explanation must name the configured value. non-trivial = the unlimited search needs >= 3 expansions; distinct by (network, algorithm, od, direction) resp. (runtime setting, terminating iteration)".into(),
         assumptions: vec![
             "an 'expansion step' is a popped vertex; the tree is sampled at every loop top and at return".into(),
             "runtime verdicts are one-sided so that machine load cannot cause alarms: a stop must be on schedule and the call may not return before the budget (harness clock starts before the search's own), and a scheduled check may not be passed when more than the budget lies between the search's first loop-top stamp and this one (a lower bound of what the check saw)".into(),
